@@ -30,9 +30,10 @@ SHAPES = "ixu"
 
 
 class Gen:
-    def __init__(self, rng, tag_idents):
+    def __init__(self, rng, tag_idents, tag_names=None):
         self.rng = rng
         self.tags = tag_idents
+        self.names = tag_names or {}     # Ident -> protocol name
 
     # ----- single values: edge lists and random draws
     def u64(self):
@@ -76,7 +77,16 @@ class Gen:
         r = self.rng
         if other_ok and r.random() < 0.2:
             return "o" + hexs(r.choice(OTHER_TAGS[:4]) if r.random() < 0.8 else r.choice(OTHER_TAGS))
-        return "t" + r.choice(self.tags)
+        t = r.choice(self.tags)
+        if self.names and r.random() < 0.2:
+            # the tag comes from a name, in any letter case (known names are recognised case-insensitively; others are kept verbatim)
+            if r.random() < 0.85:
+                nm = self.names[t]
+                nm = r.choice([nm, nm.lower(), nm.upper(), nm.swapcase(), "".join(r.choice([c.lower(), c.upper()]) for c in nm)])
+            else:
+                nm = r.choice(["fingerprint", "X-Custom", "my_tag", "Albumx", "Titl"])
+            return "p" + hexs(nm)       # implementation: Tag::try_from(nm); model: see to_model
+        return "t" + t
 
     def filt(self):
         r = self.rng
@@ -214,8 +224,8 @@ PATHS = {
 }
 
 
-def gen(ctx, tag_idents):
-    g = Gen(ctx.rng, tag_idents)
+def gen(ctx, tag_idents, names=None):
+    g = Gen(ctx.rng, tag_idents, names)
     rng = ctx.rng
     cases = []
 
@@ -299,6 +309,39 @@ def tag_idents(ctx):
     return [kv.split("=")[0] for kv in line.split(" ")]
 
 
+def tag_names(ctx):
+    line = ctx.run_model(["tag_list"])[0]
+    return {kv.split("=")[0]: bytes.fromhex(kv.split("=")[1]).decode() for kv in line.split(" ")}
+
+
+def to_model(case, names):
+    """A tag given as p<hex> is, on the implementation side, Tag::try_from(<text>); the model is handed the tag that conversion must
+    yield: the known tag whose protocol name equals the text case-insensitively (ASCII), else the catch-all with the text verbatim."""
+    by_name = {n.lower(): i for i, n in names.items()}
+
+    def conv(spec):
+        if not spec.startswith("p"):
+            return spec
+        try:
+            text = bytes.fromhex(spec[1:]).decode()
+        except ValueError:
+            return spec
+        k = "".join(c.lower() if c.isascii() else c for c in text)
+        return "t" + by_name[k] if k in by_name else "o" + spec[1:]
+
+    out = []
+    for tok in case.split(" "):
+        if tok.startswith("p"):
+            tok = conv(tok)
+        elif tok.startswith("T") and len(tok) > 1:
+            tok = "T" + ",".join(conv(x) for x in tok[1:].split(","))
+        elif tok.startswith("f") and "," in tok:
+            parts = tok[1:].split(",")
+            tok = "f" + ",".join([conv(parts[0])] + parts[1:])
+        out.append(tok)
+    return " ".join(out)
+
+
 def extra_builds(ctx):
     """the same harness with overflow checks off (release profile): wrapping instead of panicking arithmetic
     would show up as different bytes"""
@@ -310,9 +353,10 @@ def run(ctx, only=None):
     if not ctx.model_ok:
         return finish(ctx, evaluations=0, distinct_nontrivial=0, rule="model did not build", samples=[], distribution={},
                       oracle_failures=[], disagreements=[])
-    cases = only if only is not None else gen(ctx, tag_idents(ctx))
+    names = tag_names(ctx)
+    cases = only if only is not None else gen(ctx, tag_idents(ctx), names)
     impl = ctx.run_impl(cases)
-    model = ctx.run_model(cases)
+    model = ctx.run_model([to_model(c, names) for c in cases])
     disagreements = compare(cases, impl, model)
     bad = [c for c, o in zip(cases, impl) if o == "bad-case"]
     if bad and only is None:
@@ -326,7 +370,7 @@ def run(ctx, only=None):
     # oracle: the spec-side reading of what the IMPLEMENTATION did
     ocases = []
     for c, o in zip(cases, impl):
-        rest = c.split(" ", 1)[1]
+        rest = to_model(c, names).split(" ", 1)[1]
         obs = "PANIC" if o == "PANIC" else (o.split(" ")[1] if o.startswith("ok ") else "PANIC")
         ocases.append(f"predef_oracle {obs} {rest}")
     verdicts = ctx.run_model(ocases)
